@@ -46,8 +46,26 @@ class CollectionValue(GenericValue):
 
         if self._ast_node is None:
             elements = [None] * len(self._old_value)
+        elif not isinstance(self._ast_node, ast.List):
+            # the old value is no list (a tuple, set, dict, string ...)
+            # and is replaced by the list of the tested values
+            if any(v not in self._old_value for v in self._new_value):
+                flag = "fix"
+            elif any(v not in self._new_value for v in self._old_value):
+                flag = "trim"
+            else:
+                return
+
+            yield Replace(
+                node=self._ast_node,
+                file=self._file,
+                new_code=self._new_code(),
+                flag=flag,
+                old_value=self._old_value,
+                new_value=self._new_value,
+            )
+            return
         else:
-            assert isinstance(self._ast_node, ast.List)
             elements = self._ast_node.elts
 
         for old_value, old_node in zip(self._old_value, elements):
